@@ -296,6 +296,7 @@ class SelLawsEngine(VectorEngine):
     def run(self, ctx):
         t0 = time.time()
         n, qs = self.queries(ctx)
+        self._n = n
         t1 = time.time()
         rnd = self.random_queries(ctx, self.random_n.get(ctx.tier, 0))
         allq = qs + rnd
@@ -330,6 +331,7 @@ class SelLawsEngine(VectorEngine):
             key = o["k"] + ":" + (str(o.get("st") or o.get("sf") or ("err" if o.get("r") == -1 else "ok")))
             c[key] = c.get(key, 0) + 1
         ctx.extra["answers"] = c
+        ctx.extra["universe_size"] = self._n
         ctx.extra["queries_from_spec"] = nspec
         ctx.extra["queries_random"] = len(obs) - nspec
 
@@ -472,9 +474,9 @@ class C23(SelLawsEngine):
     prop = "C23"
     level = "model_checking"
     q_cfg = {"quick": "MC_SelLaws_C23_q.cfg", "thorough": "MC_SelLaws_C23_t.cfg"}
-    rule = ("Universe of selector lists defined in MC_SelLaws.tla (compounds over type, universal, class, id, attribute, pseudo-class, "
-            "pseudo-element, :is()/:not() selectors; all two-compound complex selectors over a core set x 4 combinators; three-compound ones; "
-            "lists of two). TLC emits every ordered pair, every one-step Derive pair (adding a simple selector to a compound, prepending an "
+    rule = ("Universe of 192 (thorough: 268) selector lists defined in MC_SelLaws.tla (26 compounds over type, universal, class, id, attribute, "
+            "pseudo-class, pseudo-element, :is()/:not() selectors; all two-compound complex selectors over a core set of 6 (7) compounds x 4 "
+            "combinators; three- and four-compound ones; lists of two). TLC emits every ordered pair, every one-step Derive pair (adding a simple selector to a compound, prepending an "
             "ancestor/parent prefix), every list member, in text form and in the list form the selector functions return; rsass answers "
             "selector.is-superselector for each; Trace_SelLaws.tla (SuperMonitor) checks reflexivity, monotonicity and, from the observed table, "
             "every triple for transitivity. An evaluation = one answered query; non-trivial = the two selectors differ; distinct = distinct "
@@ -502,7 +504,7 @@ class C24(SelLawsEngine):
     level = "exploration"
     q_cfg = {"quick": "MC_SelLaws_C24_q.cfg", "thorough": "MC_SelLaws_C24_t.cfg"}
     ref_cfg = None          # the SuperMonitor (and its vacuity guard) belongs to C23
-    rule = ("Operands from the C23 universe (MC_SelLaws.tla): unify for every ordered pair (with rsass's own is-superselector answer for each "
+    rule = ("Operands from the C23 universe (MC_SelLaws.tla, 192 / 268 selector lists): unify for every unordered pair (with rsass's own is-superselector answer for each "
             "operand and each member of the result), extend and replace for every selector x extendee pool x extender pool, nest for every "
             "selector x nested-selector pool (incl. `&` forms) and append for every selector x suffix pool (function result and emitted rule "
             "selector); Trace_SelLaws.tla (SelectorAlgebra) checks the relations on the observed values. An evaluation = one answered query; "
